@@ -60,7 +60,11 @@ DownNext(a, pre, line, post) ==
   ELSE IF line.ev = "Down" /\ line.args[1] \in SrvNames(pre)
   THEN IF pre.servers[line.args[1]].state = "down" THEN a ELSE With(a, line.args[1], post.clock)
   ELSE IF line.ev \in {"Up", "Freeze", "RemoveServer", "AddServer"} THEN Without(a, line.args[1])
-  ELSE IF line.ev = "L2" THEN DownOf(post)
+  ELSE IF line.ev = "L2" \/ "obs_down" \in DOMAIN line
+  THEN IF "obs_down" \in DOMAIN line
+       THEN [x \in DOMAIN DownOf(post) \cup (DOMAIN line.obs_down \cap SrvNames(post)) |->
+               IF x \in DOMAIN line.obs_down THEN line.obs_down[x] ELSE DownOf(post)[x]]
+       ELSE DownOf(post)
   ELSE a
 
 AllocNext(al, line, scn) ==
@@ -106,8 +110,22 @@ MarkNext(mk, pre, line) ==
   ELSE IF line.ev = "L2" THEN EmptyFn
   ELSE mk
 
+LeaseNext(ls, line, scn) ==
+  IF "exc" \in DOMAIN line THEN ls
+  ELSE IF line.ev = "Submit" THEN With(ls, line.args[1], scn.aprofiles[line.args[2]].lease)
+  ELSE IF line.ev = "RemoveApp" THEN Without(ls, line.args[1])
+  ELSE ls
+
+(* state with the lease each instance ASKED for (the code keeps the lease in a  *)
+(* field it also uses as scratch space while restoring)                          *)
+ObsLease(st0, ls) ==
+  [st0 EXCEPT !.apps = [n \in DOMAIN st0.apps |->
+     IF n \in DOMAIN ls THEN [st0.apps[n] EXCEPT !.lease = ls[n]] ELSE st0.apps[n]]]
+
 AuxNext(a, pre, line, post, scn) ==
   [down |-> DownNext(a.down, pre, line, post),
+   lease |-> IF line.ev \in {"Submit", "RemoveApp"}
+             THEN LeaseNext(a.lease, line, CanonScn(scn)) ELSE a.lease,
    marks |-> MarkNext(a.marks, pre, line),
    prio |-> IF line.ev \in {"Submit", "SetPrio", "RemoveApp"}
             THEN PrioNext(a.prio, line, CanonScn(scn)) ELSE a.prio,
@@ -136,8 +154,9 @@ CycleFail(pre, line, post) ==
       pl == line.placement IN
   F("C01.cap", C01cap(post)) \cup F("C01.free", C01free(post))
   \cup F("C01.single", C01single(post)) \cup F("C01.views", C01views(post))
-  \cup F("C03.post", C03post(post)) \cup F("C03.assign", C03assign(post, pl))
-  \cup F("C03.renew", C03renew(post, pl)) \cup F("C03.leaseEnd", C03leaseEnd(post, pl))
+  \cup F("C03.post", C03post(post)) \cup F("C03.assign", C03assign(ObsLease(post, aux.lease), pl))
+  \cup F("C03.renew", C03renew(ObsLease(post, aux.lease), pl))
+  \cup F("C03.leaseEnd", C03leaseEnd(ObsLease(post, aux.lease), pl))
   \cup F("C04.limit", C04limit(post)) \cup F("C04.counters", C04counters(post))
   \cup F("C05.unique", C05unique(post)) \cup F("C05.range", C05range(post))
   \cup F("C05.placedHas", C05placedHas(post)) \cup F("C05.pendingNone", C05pendingNone(post))
@@ -203,7 +222,7 @@ Init == /\ t \in DOMAIN Traces
         /\ i = 1
         /\ st = Canon(Traces[t].lines[1].post)
         /\ aux = [down |-> DownOf(Canon(Traces[t].lines[1].post)), alloc |-> EmptyFn,
-                  prio |-> EmptyFn, marks |-> EmptyFn]
+                  prio |-> EmptyFn, marks |-> EmptyFn, lease |-> EmptyFn]
 
 Next == /\ i < Len(Traces[t].lines)
         /\ i' = i + 1
